@@ -203,10 +203,11 @@ Definition compat (F : ftab) (T : ptab) (nb nu : nat) : bool :=
   (alias_ctx F <? noalias_ctx F) &&
   (* ... and stays bare as a positional argument *)
   (bs_call F <=? alias_ctx F) &&
-  (* a lambda is weaker than a call (so it is parenthesised wherever a call is); it is parenthesised as a case branch
-     and as the body of a lambda (the parser reads a func_call there); the default value of a parameter is read as a
-     plain expression: calls, lambdas and aliased expressions are parenthesised *)
-  (0 <? bs_func F) && (bs_func F <? bs_call F) && (bs_func F <? case_ctx F) && (bs_func F <? body_ctx F) &&
+  (* a lambda is not stronger than a call (so it is parenthesised wherever a call is: at equal strength nothing but a
+     matching associativity saves the parentheses); it is parenthesised as a case branch and as the body of a lambda
+     (the parser reads a func_call there); the default value of a parameter is read as a plain expression: calls,
+     lambdas and aliased expressions are parenthesised *)
+  (0 <? bs_func F) && (bs_func F <=? bs_call F) && (bs_func F <=? case_ctx F) && (bs_func F <=? body_ctx F) &&
   (bs_call F <=? default_ctx F) && (alias_ctx F <? default_ctx F).
 
 (* ------------------------------------------------------------------ text *)
